@@ -34,6 +34,8 @@ type nodeReq struct {
 	// NoState: answer without reading the settings back (reading opens a
 	// connection of the read-only pool, which by itself pins the journal mode)
 	NoState bool `json:"no_state,omitempty"`
+	// Shape: everything of the request other than the text (nil = bare request)
+	Shape *shape `json:"shape,omitempty"`
 }
 
 // settings: journal_mode, wal_autocheckpoint, synchronous, query_only
@@ -150,13 +152,17 @@ func (n *node) state() nodeState {
 	return ns
 }
 
-func (n *node) send(entry, sqlText string) (accepted bool, reqErr, stmtErr string) {
+func (n *node) send(entry, sqlText string, sh *shape) (accepted bool, reqErr, stmtErr string) {
 	ctx, cancel := context.WithTimeout(context.Background(), 20*time.Second)
 	defer cancel()
-	req := &proto.Request{Statements: stmts(sqlText)}
+	req, timings, fresh := sh.build(sqlText)
+	var freshness int64
+	if fresh {
+		freshness = int64(time.Hour)
+	}
 	switch entry {
 	case "execute":
-		res, _, err := n.st.Execute(ctx, &proto.ExecuteRequest{Request: req})
+		res, _, err := n.st.Execute(ctx, &proto.ExecuteRequest{Request: req, Timings: timings})
 		if err != nil {
 			return false, err.Error(), ""
 		}
@@ -170,7 +176,7 @@ func (n *node) send(entry, sqlText string) (accepted bool, reqErr, stmtErr strin
 		}
 		return true, "", ""
 	case "request":
-		res, _, _, err := n.st.Request(ctx, &proto.ExecuteQueryRequest{Request: req, Level: proto.ConsistencyLevel_WEAK})
+		res, _, _, err := n.st.Request(ctx, &proto.ExecuteQueryRequest{Request: req, Level: proto.ConsistencyLevel_WEAK, Timings: timings, Freshness: freshness, FreshnessStrict: fresh})
 		if err != nil {
 			return false, err.Error(), ""
 		}
@@ -196,7 +202,7 @@ func (n *node) send(entry, sqlText string) (accepted bool, reqErr, stmtErr strin
 		case "query-linearizable":
 			lvl = proto.ConsistencyLevel_LINEARIZABLE
 		}
-		rows, _, _, err := n.st.Query(ctx, &proto.QueryRequest{Request: req, Level: lvl})
+		rows, _, _, err := n.st.Query(ctx, &proto.QueryRequest{Request: req, Level: lvl, Timings: timings, Freshness: freshness, FreshnessStrict: fresh})
 		if err != nil {
 			return false, err.Error(), ""
 		}
@@ -239,7 +245,7 @@ func nodeWorker(args []string) {
 		fatal("leader: %v", err)
 	}
 	n := &node{st: st, dir: dir}
-	if ok, e1, e2 := n.send("execute", "CREATE TABLE c15(id INTEGER PRIMARY KEY, v TEXT)"); !ok || e2 != "" {
+	if ok, e1, e2 := n.send("execute", "CREATE TABLE c15(id INTEGER PRIMARY KEY, v TEXT)", nil); !ok || e2 != "" {
 		fatal("create: %s %s", e1, e2)
 	}
 	seq := 0
@@ -252,11 +258,11 @@ func nodeWorker(args []string) {
 		switch req.Op {
 		case "insert": // make sure the WAL holds frames a checkpoint would move
 			seq++
-			ok, e1, e2 := n.send("execute", fmt.Sprintf("INSERT INTO c15(v) VALUES('row %d')", seq))
+			ok, e1, e2 := n.send("execute", fmt.Sprintf("INSERT INTO c15(v) VALUES('row %d')", seq), nil)
 			resp.Accepted, resp.Err, resp.StmtErr = ok, e1, e2
 		case "send":
-			fmt.Fprintf(os.Stderr, "c15node send %s %q\n", req.Entry, req.SQL)
-			resp.Accepted, resp.Err, resp.StmtErr = n.send(req.Entry, req.SQL)
+			fmt.Fprintf(os.Stderr, "c15node send %s %q shape=%s\n", req.Entry, req.SQL, req.Shape.key())
+			resp.Accepted, resp.Err, resp.StmtErr = n.send(req.Entry, req.SQL, req.Shape)
 		case "state":
 			resp.Accepted = true
 		}
